@@ -24,6 +24,11 @@ impl<T> ErrorEnvelope<T> {
         }
     }
 
+    #[cfg(feature = "verif")]
+    pub fn verif_positions(&self) -> &[Position] {
+        &self.1
+    }
+
     pub fn err(&self) -> &T {
         &self.0
     }
